@@ -25,6 +25,8 @@ import JsonV.Lemmas.EncInvSound
 import JsonV.Lemmas.EncInvGrammar
 import JsonV.Lemmas.EncInvInst
 import JsonV.Lemmas.NumFloat
+import JsonV.Props.C10Glue
+import JsonV.Props.C01
 
 namespace JsonV.Props.C02
 open JsonV JsonV.Model JsonV.Spec.ValidJson JsonV.Model.EncInv
@@ -174,12 +176,48 @@ theorem ints_are_numbers (n : Nat) (i : Int) :
     JNumber (JsonV.Model.Number.formatUint n) ∧ JNumber (JsonV.Model.Number.formatInt i) := by
   rw [formatUint_eq, formatInt_eq]; exact ⟨jnumber_natDigits n, jnumber_intDigits i⟩
 
-/-- NOT proved here: floats.  `Frag.num` carries its law; slice C10 proves `isJsonNumber (appendFloat …)` for its own
-recogniser (`float_is_number`), the statement against the grammar (`float_is_JNumber`) is being proved by slice
-num and was not on main when this file was written. -/
-def float_fragment_full : Prop :=
-  ∀ (neg : Bool) (ds : List Nat) (n : Int), JsonV.Lemmas.NumFloat.WFD ds n →
-    JNumber (JsonV.Model.Number.appendFloat neg ds n)
+/-- Floats: slice num's `float_is_JNumber` (Props/C10Glue.lean) — jsonwire.AppendFloat's output on every
+well-formed shortest decomposition is a number of the grammar; so a float fragment `Frag.num` can always be
+built from it (`float_frag`), and the law that `Frag.num` carries is no longer a parameter. -/
+theorem float_fragment (neg : Bool) (ds : List Nat) (n : Int) (h : JsonV.Lemmas.NumFloat.WFD ds n) :
+    JNumber (JsonV.Model.Number.appendFloat neg ds n) :=
+  JsonV.Props.C10Glue.float_is_JNumber neg ds n h
+
+/-- the recogniser's number scanner accepts every number of the grammar (completeness for numbers), which is what
+`Frag.num` stores -/
+theorem number_complete (lit : Bytes) (h : JNumber lit) : pNumber lit = some [] :=
+  pNumber_complete lit h
+
+/-- the float fragment for a well-formed decomposition -/
+def float_frag (neg : Bool) (ds : List Nat) (n : Int) (h : JsonV.Lemmas.NumFloat.WFD ds n) : Frag :=
+  .num (JsonV.Model.Number.appendFloat neg ds n) (pNumber_complete _ (float_fragment neg ds n h))
+
+/-! ### what Marshal emits is what the decoder-side validator accepts -/
+
+/-- the recogniser options that correspond to the validator options of slice C01 (`Model/Validate.lean`):
+same UTF-8 mode, same duplicate policy, the decoder's nesting limit and the decoder's notion of a name's key -/
+def optOf (vo : JsonV.Model.Validate.VOpts) : Opt :=
+  { strict := !vo.allowInvalidUTF8, noDup := !vo.allowDup, maxDepth := JsonV.Model.Validate.maxNestingDepth,
+    key := JsonV.Props.C01.nameKey vo }
+
+/-- **`render_accepted`.**  The rendering of every well-formed tree of fragments is ACCEPTED by the model of
+`jsontext.Value.IsValid` (slice C01's validator, which `valid_iff` shows to accept exactly the grammar): what the
+marshal side emits is what the decoder side accepts, under the same options — in particular it is rejected
+neither for syntax, nor for UTF-8, nor for duplicate names, nor for depth. -/
+theorem render_accepted (vo : JsonV.Model.Validate.VOpts) (quote : Bytes → Bytes)
+    (hq : ∀ s, JString (!vo.allowInvalidUTF8) (quote s)) (t : OutTree)
+    (hw : t.WellFormed (optOf vo) quote) (hd : t.depth ≤ JsonV.Model.Validate.maxNestingDepth) :
+    JsonV.Model.Validate.isValid vo (t.render quote) = true := by
+  apply (JsonV.Props.C01.valid_iff vo _).2
+  have := render_text (optOf vo) quote hq t hw hd
+  simpa [optOf, JsonV.Lemmas.EncInvSound.gopts, JsonV.Props.C01.gopts] using this
+
+/-- … with the modelled AppendQuote, nothing assumed about `quote`. -/
+theorem render_accepted_real (vo : JsonV.Model.Validate.VOpts) (f : QFlags) (hh : f.html = false) (hj : f.js = false)
+    (t : OutTree) (hw : t.WellFormed (optOf vo) (realQuote f))
+    (hd : t.depth ≤ JsonV.Model.Validate.maxNestingDepth) :
+    JsonV.Model.Validate.isValid vo (t.render (realQuote f)) = true :=
+  render_accepted vo (realQuote f) (fun s => quote_is_string f hh hj _ s) t hw hd
 
 /-! ### what remains between these theorems and C02 -/
 
